@@ -1,0 +1,7 @@
+//go:build !verif
+
+package collection
+
+// verifYield marks a synchronisation point; it does nothing unless the module
+// is built with the "verif" tag (see verif_on.go).
+func verifYield(event string, queue any) {}
